@@ -84,3 +84,31 @@ func init() {
 		NotDecided:  "exactly-once Close when the same object is bound under two handles; duration bounds of cleanup; behaviour of a second Run after the first finished beyond the panic gate.",
 		Assumptions: commonAssumptions})
 }
+
+func init() {
+	prop(&PropInfo{ID: "C13", Level: "other",
+		Explanation: "Decides structural necessary conditions of 'every committed update is delivered, in-flight updates are never broadcast, aborted updates disappear, peer state is never lost' on crdt.go: every state sent to a peer is getStableValue(), which returns the snapshot exactly while a section writes, under the lock (CRDT-STABLE); the merger updates the snapshot too, so Abort cannot discard merged peer state (CRDT-SNAPSHOT); the broadcast budget is armed in Commit (CRDT-ARM); every received state is queued and only the merger drains the queue (CRDT-ENQUEUE); Abort restores every field the section operations write (RES-RESTORE).",
+		NotDecided:  "eventual delivery and convergence (liveness over schedules and timing); peers that join late; the CRDT value algebra (C12).",
+		Assumptions: commonAssumptions})
+}
+
+func init() {
+	prop(&PropInfo{ID: "C19", Level: "other",
+		Explanation: "Decides the structural clauses of failure-detector completeness and settling on the control-flow graphs of fd.go: RunArchetype stores alive before Run, finished/failed on every normal exit according to Run's error and failed on every path after a recovered panic (FD-EXITSTATE); every poll iteration of mainLoop stores a state, the three failure successors store the constant failed, a reply is stored only without error and timeout, ErrShutdown forces a re-dial, reply variable and completion channel are per-poll (FD-FAILBRANCH); ReadValue writes nothing, cannot wait longer than one Sleep(pullInterval), and maps uninitialized->abort, alive->FALSE, everything else->TRUE (FD-READ).",
+		NotDecided:  "the bound 'within k polling intervals', reachability of monitors, ordering of start events - timing and network behaviour.",
+		Assumptions: commonAssumptions})
+}
+
+func init() {
+	prop(&PropInfo{ID: "C18", Level: "other",
+		Explanation: "Decides the structural clauses of faithful, causally consistent traces on the control-flow graphs of Run/commit/abort/Read/Write and the value carriers: each attempt is begun once and logged exactly once, commit events only past the pre-commit test and after all resource commits, abort events after all rollbacks (EV-PAIR); accesses are recorded only by Read/Write, only when the operation succeeded, with that operation's name, indices and value (EV-RECORD); the own clock component is incremented exactly once per attempt between BeginEvent and Body and the logged clock is the sink's clock at logging time (CLK-INC); Read witnesses the value's clock before stripping, Write wraps with the writer's clock (CLK-WITNESS); the old-value hint channel is armed/disarmed around WriteValue (HINT-PAIR); carriers attach the writer's clock at commit (CLK-COMMITSTAMP).",
+		NotDecided:  "replayability of logged reads; dominance along multi-hop relays (value dependent); the JSON layout consumed by JSONToTLA.scala.",
+		Assumptions: commonAssumptions})
+}
+
+func init() {
+	prop(&PropInfo{ID: "C10", Level: "other",
+		Explanation: "Decides the structural clauses of 'choices in range, every combination tried': NextFairnessCounter returns only a range-checked count and initialises digits modulo their ceiling (FC-RANGE); Run advances the oracle exactly once per attempt, between the .pc read and Body, keyed by that label (FC-BEGIN); the odometer increment starts at the deepest digit, visits every digit without early exit, stores digits modulo their ceilings and propagates the carry, label change resets, id/bound change truncates (FC-CARRY); in all generated code choice ids are distinct literals per critical section, either-switches cover exactly 0..n-1, with-selections use Len of the same set after the empty-set abort (FC-IDS).",
+		NotDecided:  "the combinatorial claim itself (every tuple exactly once per product-of-bounds consecutive attempts) as a statement about run-time sequences.",
+		Assumptions: commonAssumptions})
+}
